@@ -26,7 +26,7 @@ def sh(cmd, **kw):
 def run(ctx):
     rep = ctx.report
     rep.rule = ("the core alone is built as libcore-<cfg>.so with -nostdlib for {gcc, clang} x {-O0, -O2, -Os} x {hosted, "
-                "-ffreestanding -nostdinc}; a scenario corpus runs in a harness that exports the port, under LD_BIND_NOW=1 "
+                "-ffreestanding -nostdinc} plus -O2 with the usual hardening defines (-D_FORTIFY_SOURCE=2 -fstack-protector-strong -DNDEBUG); a scenario corpus runs in a harness that exports the port, under LD_BIND_NOW=1 "
                 "LD_DEBUG=bindings: every binding the loader makes from libcore to another object must be a function declared in "
                 "lltdPort.h (or memcpy/memset/memmove/memcmp/compiler runtime); event logs must be identical across the matrix; a "
                 "silent arena-backed port runs the core between two marker system calls under strace and nothing may appear in "
@@ -50,6 +50,8 @@ def run(ctx):
         for opt in ("-O0", "-O2", "-Os"):
             for mode in ("hosted", "freestanding"):
                 cfgs.append((cc, opt, mode))
+        # what distribution packagers put on the command line
+        cfgs.append((cc, "-O2", "hardened"))
     scns = c01.make_scenarios(ctx, ctx.n(320, 4000))
     scns = [s for s in scns if s.meta["fam"] not in ("esp32", "dse-inflated", "flow", "mutated")]
     for s in scns:
@@ -64,6 +66,8 @@ def run(ctx):
         name = "%s%s-%s" % (cc, opt, mode)
         lib = os.path.join(d, "libcore-%s.so" % name)
         flags = [opt, "-g", "-fPIC", "-shared", "-nostdlib", "-w", inc]
+        hard = ["-D_FORTIFY_SOURCE=2", "-fstack-protector-strong", "-DNDEBUG", "-D_GNU_SOURCE"] if mode == "hardened" else []
+        flags += hard
         if mode == "freestanding":
             flags += ["-ffreestanding", "-nostdinc", "-isystem", gcc_inc if cc == "gcc" else clang_inc]
         r = sh([cc] + flags + ["-o", lib] + core)
@@ -73,8 +77,8 @@ def run(ctx):
         objs = []
         for c in core:
             o = os.path.join(d, "%s-%s.o" % (name, os.path.basename(c)))
-            cflags = [opt, "-c", "-w", inc] + (["-ffreestanding", "-nostdinc", "-isystem", gcc_inc if cc == "gcc" else clang_inc]
-                                               if mode == "freestanding" else [])
+            cflags = [opt, "-c", "-w", inc] + hard + (["-ffreestanding", "-nostdinc", "-isystem", gcc_inc if cc == "gcc" else clang_inc]
+                                                      if mode == "freestanding" else [])
             r2 = sh([cc] + cflags + ["-o", o, c])
             if r2.returncode == 0:
                 objs.append(o)
@@ -91,7 +95,7 @@ def run(ctx):
                 for sec in re.findall(r"\s(\.(?:preinit_array|init_array|fini_array|ctors|dtors))\S*\s", sh(["readelf", "-SW", rel]).stdout):
                     und.add("startup-section:" + sec)
                 # the same core in a port without any C runtime: own _start, raw system calls, nobody runs constructors
-                if os.uname().machine == "x86_64":
+                if os.uname().machine == "x86_64" and mode != "hardened":       # (a stack protector needs the runtime's canary set-up)
                     bare = os.path.join(d, "bare-%s" % name)
                     rb = sh(["gcc", "-O1", "-w", "-fno-builtin", "-fno-tree-loop-distribute-patterns", "-fno-stack-protector", "-ffreestanding",
                              "-nostdlib", "-nostartfiles", "-static", "-DVH_BARE", inc, "-o", bare, os.path.join(H.HARN, "vh_bracket.c"), rel])
@@ -299,8 +303,8 @@ def run(ctx):
     rep.extra["lint_script"] = dict(exit=r.returncode, tail=r.stdout[-300:])
     if r.returncode != 0:
         rep.violation("C20:lint:os-specific-macro-or-header-in-core", "scripts/lint_core_no_os_conditionals.sh failed:\n" + r.stdout[-1500:])
-    rep.need("corpus_runs", rep.counters.get("corpus_runs", 0), 12)
-    rep.need("bracket_runs", rep.counters.get("bracket_runs", 0), 12)
+    rep.need("corpus_runs", rep.counters.get("corpus_runs", 0), 14)
+    rep.need("bracket_runs", rep.counters.get("bracket_runs", 0), 14)
     rep.need("cross_target_objects_checked", rep.counters.get("cross_target_objects_checked", 0), 6)
     if os.uname().machine == "x86_64":
         rep.need("bare_runs", rep.counters.get("bare_runs", 0), 12)
